@@ -1,4 +1,6 @@
-package main
+// Package hx is the shared part of the /verif harness: PRNG, the line protocol session, the report
+// the orchestrator (/verif/check) reads, and the facts writer.
+package hx
 
 import (
 	"bufio"
@@ -15,69 +17,69 @@ import (
 
 // ---- PRNG: every random choice of a run derives from one splitmix64 state ----
 
-type prng struct{ s uint64 }
+type Prng struct{ s uint64 }
 
-func newPrng(seed uint64) *prng { return &prng{s: seed*0x9E3779B97F4A7C15 + 0x1234567} }
+func NewPrng(seed uint64) *Prng { return &Prng{s: seed*0x9E3779B97F4A7C15 + 0x1234567} }
 
-func (p *prng) u64() uint64 {
+func (p *Prng) U64() uint64 {
 	p.s += 0x9E3779B97F4A7C15
 	z := p.s
 	z = (z ^ (z >> 30)) * 0xBF58476D1CE4E5B9
 	z = (z ^ (z >> 27)) * 0x94D049BB133111EB
 	return z ^ (z >> 31)
 }
-func (p *prng) intn(n int) int {
+func (p *Prng) Intn(n int) int {
 	if n <= 0 {
 		return 0
 	}
-	return int(p.u64() % uint64(n))
+	return int(p.U64() % uint64(n))
 }
-func (p *prng) chance(num, den int) bool { return p.intn(den) < num }
-func (p *prng) fork() *prng               { return newPrng(p.u64()) }
+func (p *Prng) Chance(num, den int) bool { return p.Intn(den) < num }
+func (p *Prng) Fork() *Prng               { return NewPrng(p.U64()) }
 
 // ---- run options common to all drivers ----
 
-type runOpts struct {
-	tier   string
-	seed   uint64
-	out    string
-	replay string
-	scale  int
+type RunOpts struct {
+	Tier   string
+	Seed   uint64
+	Out    string
+	Replay string
+	Scale  int
 }
 
-func parseOpts(args []string) runOpts {
+func ParseOpts(args []string) RunOpts {
 	fs := flag.NewFlagSet("drive", flag.ExitOnError)
-	var o runOpts
-	fs.StringVar(&o.tier, "tier", "quick", "quick|thorough")
-	fs.Uint64Var(&o.seed, "seed", 1, "seed")
-	fs.StringVar(&o.out, "out", "", "output directory")
-	fs.StringVar(&o.replay, "replay", "", "replay file (ops of one case)")
-	fs.IntVar(&o.scale, "scale", 1, "multiply case counts")
+	var o RunOpts
+	fs.StringVar(&o.Tier, "tier", "quick", "quick|thorough")
+	fs.Uint64Var(&o.Seed, "seed", 1, "seed")
+	fs.StringVar(&o.Out, "out", "", "output directory")
+	fs.StringVar(&o.Replay, "replay", "", "replay file (ops of one case)")
+	fs.IntVar(&o.Scale, "scale", 1, "multiply case counts")
 	fs.Parse(args)
-	if o.out == "" {
+	if o.Out == "" {
 		fmt.Fprintln(os.Stderr, "-out required")
 		os.Exit(2)
 	}
-	os.MkdirAll(o.out, 0o755)
-	if o.scale < 1 {
-		o.scale = 1
+	os.MkdirAll(o.Out, 0o755)
+	if o.Scale < 1 {
+		o.Scale = 1
 	}
 	return o
 }
 
-func (o runOpts) thorough() bool { return o.tier == "thorough" }
+func (o RunOpts) Thorough() bool { return o.Tier == "thorough" }
 
 // n picks the case count for the tier.
-func (o runOpts) n(quick, thorough int) int {
-	if o.thorough() {
-		return thorough * o.scale
+func (o RunOpts) N(quick, thorough int) int {
+	if o.Thorough() {
+		return thorough * o.Scale
 	}
-	return quick * o.scale
+	return quick * o.Scale
 }
 
 // ---- the line protocol: ops.txt goes to the Lean driver, impl.txt is what the real code answered ----
 
-type oracleFailure struct {
+type OracleFailure struct {
 	Signature string   `json:"signature"`
 	What      string   `json:"what"`
 	Case      int      `json:"case"`
@@ -85,61 +87,61 @@ type oracleFailure struct {
 	Detail    string   `json:"detail,omitempty"`
 }
 
-type report struct {
+type Report struct {
 	Evaluations        int              `json:"evaluations"`
 	DistinctNontrivial int              `json:"distinct_nontrivial"`
 	Rule               string           `json:"rule"`
 	Samples            [][]string       `json:"samples"`
 	Histogram          map[string]int   `json:"histogram"`
-	OracleFailures     []oracleFailure  `json:"oracle_failures"`
+	OracleFailures     []OracleFailure  `json:"oracle_failures"`
 	Notes              []string         `json:"notes,omitempty"`
 	Exhaustive         bool             `json:"exhaustive,omitempty"`
 	CoverageGap        []string         `json:"coverage_gap,omitempty"`
 	Extra              map[string]any   `json:"extra,omitempty"`
 }
 
-type session struct {
-	o        runOpts
+type Session struct {
+	O        RunOpts
 	ops      *bufio.Writer
 	impl     *bufio.Writer
 	fops     *os.File
 	fimpl    *os.File
-	rep      report
+	Rep      Report
 	seen     map[string]bool
-	caseNo   int
+	CaseNo   int
 	curOps   []string
 	curNontr bool
 	maxSamp  int
 }
 
-func newSession(o runOpts, rule string) *session {
-	fo, err := os.Create(filepath.Join(o.out, "ops.txt"))
+func NewSession(o RunOpts, rule string) *Session {
+	fo, err := os.Create(filepath.Join(o.Out, "ops.txt"))
 	if err != nil {
 		panic(err)
 	}
-	fi, err := os.Create(filepath.Join(o.out, "impl.txt"))
+	fi, err := os.Create(filepath.Join(o.Out, "impl.txt"))
 	if err != nil {
 		panic(err)
 	}
-	return &session{o: o, fops: fo, fimpl: fi, ops: bufio.NewWriterSize(fo, 1<<20), impl: bufio.NewWriterSize(fi, 1<<20),
-		rep: report{Rule: rule, Histogram: map[string]int{}}, seen: map[string]bool{}, maxSamp: 3}
+	return &Session{O: o, fops: fo, fimpl: fi, ops: bufio.NewWriterSize(fo, 1<<20), impl: bufio.NewWriterSize(fi, 1<<20),
+		Rep: Report{Rule: rule, Histogram: map[string]int{}}, seen: map[string]bool{}, maxSamp: 3}
 }
 
 // beginCase starts case n; header carries the per-case configuration for the model.
-func (s *session) beginCase(header string) {
-	s.endCase()
-	s.caseNo++
+func (s *Session) BeginCase(header string) {
+	s.EndCase()
+	s.CaseNo++
 	s.curOps = s.curOps[:0]
 	s.curNontr = false
-	line := fmt.Sprintf("case %d %s", s.caseNo, header)
+	line := fmt.Sprintf("case %d %s", s.CaseNo, header)
 	line = strings.TrimRight(line, " ")
 	fmt.Fprintln(s.ops, line)
-	fmt.Fprintf(s.impl, "case %d\n", s.caseNo)
+	fmt.Fprintf(s.impl, "case %d\n", s.CaseNo)
 	s.curOps = append(s.curOps, line)
 }
 
 // op records one operation line and what the implementation answered.
-func (s *session) op(opLine, implOut string) {
+func (s *Session) Op(opLine, implOut string) {
 	if strings.ContainsAny(opLine, "\n\r") || strings.ContainsAny(implOut, "\n\r") {
 		panic("newline in protocol line: " + opLine + " / " + implOut)
 	}
@@ -148,23 +150,23 @@ func (s *session) op(opLine, implOut string) {
 	s.curOps = append(s.curOps, opLine)
 }
 
-func (s *session) hit(k string)         { s.rep.Histogram[k]++ }
-func (s *session) hitN(k string, n int) { s.rep.Histogram[k] += n }
-func (s *session) nontrivial()          { s.curNontr = true }
+func (s *Session) Hit(k string)         { s.Rep.Histogram[k]++ }
+func (s *Session) HitN(k string, n int) { s.Rep.Histogram[k] += n }
+func (s *Session) Nontrivial()          { s.curNontr = true }
 
-func (s *session) fail(sig, what, detail string) {
+func (s *Session) Fail(sig, what, detail string) {
 	ops := append([]string(nil), s.curOps...)
-	if len(s.rep.OracleFailures) < 200 {
-		s.rep.OracleFailures = append(s.rep.OracleFailures, oracleFailure{Signature: sig, What: what, Case: s.caseNo, Ops: ops, Detail: detail})
+	if len(s.Rep.OracleFailures) < 200 {
+		s.Rep.OracleFailures = append(s.Rep.OracleFailures, OracleFailure{Signature: sig, What: what, Case: s.CaseNo, Ops: ops, Detail: detail})
 	}
-	s.hit("oracle_fail:" + sig)
+	s.Hit("oracle_fail:" + sig)
 }
 
-func (s *session) endCase() {
-	if s.caseNo == 0 || s.curOps == nil || len(s.curOps) == 0 {
+func (s *Session) EndCase() {
+	if s.CaseNo == 0 || s.curOps == nil || len(s.curOps) == 0 {
 		return
 	}
-	s.rep.Evaluations++
+	s.Rep.Evaluations++
 	h := sha256.New()
 	for i, l := range s.curOps {
 		if i == 0 {
@@ -183,39 +185,39 @@ func (s *session) endCase() {
 	if !s.seen[key] {
 		s.seen[key] = true
 		if s.curNontr {
-			s.rep.DistinctNontrivial++
-			if len(s.rep.Samples) < s.maxSamp {
+			s.Rep.DistinctNontrivial++
+			if len(s.Rep.Samples) < s.maxSamp {
 				smp := append([]string(nil), s.curOps...)
 				if len(smp) > 40 {
 					smp = append(smp[:40], fmt.Sprintf("… (%d more lines)", len(s.curOps)-40))
 				}
-				s.rep.Samples = append(s.rep.Samples, smp)
+				s.Rep.Samples = append(s.Rep.Samples, smp)
 			}
 		}
 	}
 	s.curOps = s.curOps[:0]
 }
 
-func (s *session) finish() error {
-	s.endCase()
+func (s *Session) Finish() error {
+	s.EndCase()
 	s.ops.Flush()
 	s.impl.Flush()
 	s.fops.Close()
 	s.fimpl.Close()
-	keys := make([]string, 0, len(s.rep.Histogram))
-	for k := range s.rep.Histogram {
+	keys := make([]string, 0, len(s.Rep.Histogram))
+	for k := range s.Rep.Histogram {
 		keys = append(keys, k)
 	}
 	sort.Strings(keys)
-	b, err := json.MarshalIndent(s.rep, "", " ")
+	b, err := json.MarshalIndent(s.Rep, "", " ")
 	if err != nil {
 		return err
 	}
-	return os.WriteFile(filepath.Join(s.o.out, "report.json"), b, 0o644)
+	return os.WriteFile(filepath.Join(s.O.Out, "report.json"), b, 0o644)
 }
 
 // readReplay returns the op lines of a replay file: either a JSON object with an "ops" array or plain lines.
-func readReplay(path string) ([]string, error) {
+func ReadReplay(path string) ([]string, error) {
 	b, err := os.ReadFile(path)
 	if err != nil {
 		return nil, err
@@ -236,10 +238,10 @@ func readReplay(path string) ([]string, error) {
 	return out, nil
 }
 
-func hexb(b []byte) string { return hex.EncodeToString(b) }
+func Hexb(b []byte) string { return hex.EncodeToString(b) }
 
 // workRoot is where scratch directories go: $VERIF_WORK (set by ./check) or the OS temp dir.
-func workRoot() string {
+func WorkRoot() string {
 	if w := os.Getenv("VERIF_WORK"); w != "" {
 		os.MkdirAll(w, 0o755)
 		return w
